@@ -10,6 +10,8 @@
 From Coq Require Import List Arith Bool.
 Import ListNotations.
 Require Import MD.Lib.Strided MD.Load.Model MD.Load.Lemmas MD.Load.Proofs MD.Load.Theorems MD.Load.Refuted.
+Require Import MD.Load.Reflect MD.Load.ReflectProofs MD.Load.Stamps.
+Require MD.Cursor.Model MD.Load.CursorLink.
 
 Section Statements.
 Context {A : Type} (junk : A).
@@ -125,6 +127,72 @@ Theorem iterload_xtc_after_skip_never_terminates : forall g (f : list A) c str k
   forall fuel, snd (iterload junk g FXtc f c str k ai fuel) = Diverged.
 Proof. exact (xtc_iterload_after_skip_diverges junk). Qed.
 
+(* ---- the remaining corners, characterised for every file *)
+Theorem iterload_gro_arc_repaired_skip_refused : forall g (f : list A) c str k ai fuel, 1 <= c -> 0 < k ->
+  iterload junk g FSeqNoSeek f c str k ai fuel = ([], Raised).
+Proof. exact (iterload_seq_noseek_skip_refused junk). Qed.
+
+Theorem load_frame_gro_arc_repaired_refused : forall (f : list A) str k ai,
+  load junk FSeqNoSeek f str (Some k) ai = Raise.
+Proof. exact (load_frame_seq_noseek_refused junk). Qed.
+
+Theorem load_stride_arc_repaired : forall (f : list A) str ai, 1 <= str ->
+  load junk FSeqNoSeek f str None ai = spec_load f str None ai.
+Proof. intros f str ai Hs. apply (Theorems.load_stride junk FSeqNoSeek); [exact I|exact Hs|discriminate]. Qed.
+
+Theorem iterload_chunks_xtc_stride1_after_skip : forall g (f : list A) c k ai fuel,
+  1 <= c -> 0 < k < length f -> length f < fuel ->
+  iterload junk g FXtc f c 1 k ai fuel = spec_iterload f c 1 k ai.
+Proof. exact (iterload_xtc_stride1_after_skip junk). Qed.
+
+Theorem iterload_skip_all_xtc_trr_always_refused : forall g fm (f : list A) c str k ai fuel, fm = FXtc \/ fm = FTrr ->
+  1 <= c -> 0 < k -> length f <= k ->
+  iterload junk g fm f c str k ai fuel = ([], Raised).
+Proof. exact (iterload_xdr_skip_all_refused junk). Qed.
+
+(* ---- reflection: terms extracted from mdtraj's sources (coq/Gen/LoadReaders.v, regenerated on every run) that pass
+   the checkers have exactly the semantics of the model; the per-run lemmas  check <term> = true  are in Gen *)
+Theorem reflected_reader_is_model : forall r fm, classify r = Some fm ->
+  (forall (f : list A) s n str ai, 1 <= str -> reader_sem r f s n str ai = rd junk fm f s n str ai) /\
+  (forall (f : list A) s k, reader_seek r f s k = sk fm f s k).
+Proof. exact (classify_sound junk). Qed.
+
+Theorem reflected_loader_is_model : forall d r fm, check_loader d = true -> classify r = Some fm ->
+  (forall b, fm <> FPdb b) -> forall (f : list A) str frame ai, 1 <= str ->
+  loader_sem d (reader_sem r) (reader_seek r) f str frame ai = load junk fm f str frame ai.
+Proof. exact (loader_sound junk). Qed.
+
+Theorem reflected_iterload_is_model : forall g r fm gl, check_glue g = true -> classify r = Some fm ->
+  (forall b, fm <> FPdb b) -> forall (f : list A) c str k ai fuel, 1 <= c -> 1 <= str ->
+  glue_sem g (reader_sem r) (reader_seek r) f c str k ai fuel = iterload junk gl fm f c str k ai fuel.
+Proof. exact (glue_sound junk). Qed.
+
+Theorem reflected_iterload_satisfies_C02 : forall g r fm, check_glue g = true -> classify r = Some fm ->
+  forall (f : list A) c str k ai fuel, 1 <= c -> 1 <= str -> length f < fuel ->
+  (fm = FArr true \/ fm = FNc \/ (fm = FSeq /\ k <= length f) \/ (fm = FSeqNoSeek /\ k = 0)) ->
+  glue_sem g (reader_sem r) (reader_seek r) f c str k ai fuel = spec_iterload f c str k ai.
+Proof. exact (reflected_iterload_right junk). Qed.
+
+(* ---- time stamps synthesised by read_as_traj / load_pdb agree with the full load (settime = any stamp overwrite) *)
+Theorem iterload_time_synthesised : forall (settime : nat -> A -> A) fm (f : list A) c str k ai fuel,
+  (fm = FSeq /\ k <= length f) \/ (fm = FSeqNoSeek /\ k = 0) ->
+  1 <= c -> 1 <= str -> commutes settime ai -> length f < fuel ->
+  iter_loop fuel (fun s => rd_synth junk settime fm f s (Some c) str ai) (mkst k k false) =
+  spec_iterload (full settime f) c str k ai.
+Proof. exact (iterload_synth_time junk). Qed.
+
+Theorem load_time_synthesised : forall (settime : nat -> A -> A) fm (f : list A) str frame ai,
+  rd junk fm = seq_read -> 1 <= str -> commutes settime ai ->
+  (match frame with Some k => k < length f /\ fm = FSeq | None => True end) ->
+  (let s1 := match frame with Some k => mkst k k false | None => st0 end in
+   snd (rd_synth junk settime fm f s1 (match frame with Some _ => Some 1 | None => None end) str ai)) =
+  spec_load (full settime f) str frame ai.
+Proof. exact (load_synth_time junk). Qed.
+
+Theorem load_pdb_time_repaired : forall (settime : nat -> A -> A) (f : list A) str frame ai, 1 <= str ->
+  commutes settime ai -> pdb_load_time settime true f str frame ai = spec_load (full settime f) str frame ai.
+Proof. exact pdb_load_time_repaired. Qed.
+
 End Statements.
 
 Print Assumptions load_stride.
@@ -149,6 +217,18 @@ Print Assumptions atoms_commute_load.
 Print Assumptions atoms_commute_iterload.
 Print Assumptions atoms_commute.
 Print Assumptions iterload_xtc_after_skip_never_terminates.
+Print Assumptions iterload_gro_arc_repaired_skip_refused.
+Print Assumptions load_frame_gro_arc_repaired_refused.
+Print Assumptions load_stride_arc_repaired.
+Print Assumptions iterload_chunks_xtc_stride1_after_skip.
+Print Assumptions iterload_skip_all_xtc_trr_always_refused.
+Print Assumptions reflected_reader_is_model.
+Print Assumptions reflected_loader_is_model.
+Print Assumptions reflected_iterload_is_model.
+Print Assumptions reflected_iterload_satisfies_C02.
+Print Assumptions iterload_time_synthesised.
+Print Assumptions load_time_synthesised.
+Print Assumptions load_pdb_time_repaired.
 
 (* ================================================================== the code as found: refuted *)
 Theorem iterload_chunks_hdf5_current_refuted :
@@ -238,6 +318,25 @@ Theorem atoms_commute_chunk0_current_refuted :
     iterload 99 g00 FNc f 0 1 k sel1 (S (length f)) <> spec_iterload f 0 1 k sel1.
 Proof. exact chunk0_cur_drops_atoms. Qed.
 Print Assumptions atoms_commute_chunk0_current_refuted.
+
+(* ================================================================== C02 <-> C18: one model
+   the reader families of this development, at stride 1 without atom selection, driven by C18's operations,
+   refine C18's abstract cursor (MD.Cursor.Model.spec_run) on every in-range history *)
+Theorem load_readers_refine_cursor : forall fm (f : list nat) ops, CursorLink.linked fm ->
+  MD.Cursor.Model.all_in_range (length f) 0 ops = true ->
+  CursorLink.lrun fm f st0 ops = MD.Cursor.Model.spec_run f 0 ops.
+Proof.
+  intros fm f ops Hfm Hr.
+  apply (CursorLink.load_readers_refine_cursor fm f Hfm ops st0 0); [split; reflexivity|apply Nat.le_0_l|exact Hr].
+Qed.
+Print Assumptions load_readers_refine_cursor.
+
+Theorem load_pdb_time_current_refuted :
+  exists (f : list (nat * nat)) k, k < length f /\
+    pdb_load_time (fun t x => (t, snd x)) false f 1 (Some k) None <>
+    spec_load (full (fun t x => (t, snd x)) f) 1 (Some k) None.
+Proof. exact pdb_load_time_current_refuted. Qed.
+Print Assumptions load_pdb_time_current_refuted.
 
 (* non-vacuity: the hypotheses of the general theorems are satisfiable by a non-trivial instance,
    and on it the model really produces three chunks [1;4] [7] ... of the 10-frame file *)
